@@ -180,6 +180,11 @@ Definition gcd_ (a b : num) : res num :=
   end.
 
 (* ---------- shifts *)
+(* computable forms of Z.shiftr / Z.shiftl (the library versions iterate `count` times, which cannot
+   be evaluated for counts like 2^64-1); proved equal to them in C01/Shift.v *)
+Definition zshr (x n : Z) : Z := if Z.log2 (Z.abs x) <? n then (if x <? 0 then -1 else 0) else Z.shiftr x n.
+Definition zshl (x n : Z) : Z := if x =? 0 then 0 else Z.shiftl x n.
+
 Definition clamp (z top : Z) : Z := if z <=? top then z else top.   (* try_into().unwrap_or(top), z >= 0 *)
 
 (* i64::leading_zeros for x >= 0 *)
@@ -197,8 +202,8 @@ Definition checked_signed_shl (x shift : Z) : option Z :=
 Definition shr_pos (a : num) (c : Z) : num :=      (* c >= 0 *)
   match a with
   | Fix x => let r := clamp c u32_max in
-             norm (if r <? 64 then Z.shiftr x r else (if x <? 0 then -1 else 0))
-  | Big x => Big (Z.shiftr x (clamp c usize_max))
+             norm (if r <? 64 then zshr x r else (if x <? 0 then -1 else 0))
+  | Big x => Big (zshr x (clamp c usize_max))
   end.
 
 Definition shl_pos (a : num) (c : Z) : num :=      (* c >= 0 *)
@@ -206,9 +211,9 @@ Definition shl_pos (a : num) (c : Z) : num :=      (* c >= 0 *)
   match a with
   | Fix x => match checked_signed_shl x r with
              | Some v => norm v
-             | None => Big (Z.shiftl x r)
+             | None => Big (zshl x r)
              end
-  | Big x => Big (Z.shiftl x r)
+  | Big x => Big (zshl x r)
   end.
 
 Definition shr (a b : num) : num :=
@@ -241,6 +246,9 @@ Definition binary_pow (n power : Z) : Z :=
   | Zneg _ => 1
   end.
 
+(* computable power (square and multiply); proved equal to Z.pow for non-negative exponents *)
+Definition zpow (a b : Z) : Z := binary_pow a b.
+
 Definition is_unit (x : Z) : bool := (x =? 1) || (x =? 0) || (x =? -1).
 
 Definition int_pow (a b : num) : res num :=
@@ -250,7 +258,7 @@ Definition int_pow (a b : num) : res num :=
        | Fix x, Fix y =>
            let via_checked :=
              if (0 <=? y) && (y <=? u32_max) then
-               match checked (Z.pow x y) with Some r => Some (norm r) | None => None end
+               match checked (zpow x y) with Some r => Some (norm r) | None => None end
              else None in
            match via_checked with
            | Some r => Ok r
@@ -287,8 +295,8 @@ Fixpoint eval_impl (e : expr) : res num :=
   end.
 
 (* ---------- the exact specification over Z *)
-Definition shr_spec (x c : Z) : Z := Z.shiftr x (clamp c usize_max).
-Definition shl_spec (x c : Z) : Z := Z.shiftl x (clamp c usize_max).
+Definition shr_spec (x c : Z) : Z := zshr x (clamp c usize_max).
+Definition shl_spec (x c : Z) : Z := zshl x (clamp c usize_max).
 
 Definition pow_spec (a b : Z) : res Z :=
   if (a =? 0) && (b <? 0) then Err Undefined
@@ -296,7 +304,7 @@ Definition pow_spec (a b : Z) : res Z :=
          (if a =? 1 then Ok 1
           else if a =? -1 then Ok (if Z.even b then 1 else -1)
           else Err (MustBeFloat a))
-       else Ok (Z.pow a b).
+       else Ok (zpow a b).
 
 Definition un_spec (o : unop) (a : Z) : res Z :=
   match o with
